@@ -583,15 +583,31 @@ func c15WS(w *W) {
 			srvTLS, cliTLS = simTLS()
 		}
 	}
+	// (plain ws inside the simulation: the bytes the listener writes are looked
+	// at below gorilla, which would put a fragmented message together again
+	// without a word - "each message is one binary frame")
+	var spy *wsFrameSpy
 	wsDialer := func(sub string) *websocket.Dialer {
 		d := &websocket.Dialer{Subprotocols: []string{sub}, TLSClientConfig: cliTLS}
 		if !w.Real {
 			d.NetDialContext = func(ctx context.Context, network, addr string) (net.Conn, error) {
-				return curNet.Dial(NetKey("tcp://" + addr))
+				c, err := curNet.Dial(NetKey("tcp://" + addr))
+				if err != nil || tran != "ws" {
+					return c, err
+				}
+				spy = &wsFrameSpy{Conn: c}
+				return spy, nil
 			}
 		}
 		return d
 	}
+	defer func() {
+		if spy != nil && spy.bad != "" && !w.Failed() {
+			w.Failf("C15/ws-message-not-one-binary-frame:"+kind, "%s listener over ws wrote %s (after %d frames); the mapping has each message in one binary frame", kind, spy.bad, spy.frames)
+		} else if spy != nil && spy.frames > 0 {
+			w.Probe("ws-frames-inspected-below-gorilla")
+		}
+	}()
 	w.SetShape("kind", kind)
 	w.SetShape("tran", tran)
 	w.SetShape("role", role)
@@ -945,4 +961,91 @@ func c15WSMany(w *W) {
 func init() {
 	register(&Scenario{Name: "websocket-many-clients", Prop: "C15", Engine: "R", Weight: 1, Run: c15WSMany})
 	register(&Scenario{Name: "websocket-many-clients-sim", Prop: "C15", Horizon: time.Hour, Weight: 2, Run: c15WSMany})
+}
+
+
+// wsFrameSpy parses the WebSocket frames a server writes (unmasked, RFC 6455
+// section 5.2) as the client reads them, below the WebSocket library.
+type wsFrameSpy struct {
+	net.Conn
+	http   bool   // the HTTP response has been skipped
+	tail   []byte // last bytes seen while looking for the end of the HTTP response
+	need   int    // payload bytes of the current frame still to skip
+	hdr    []byte // header bytes of the frame being parsed
+	frames int
+	bad    string
+}
+
+func (s *wsFrameSpy) Read(p []byte) (int, error) {
+	n, err := s.Conn.Read(p)
+	s.feed(p[:n])
+	return n, err
+}
+
+func (s *wsFrameSpy) feed(b []byte) {
+	for len(b) > 0 {
+		if !s.http {
+			s.tail = append(s.tail, b[0])
+			b = b[1:]
+			if len(s.tail) > 4 {
+				s.tail = s.tail[len(s.tail)-4:]
+			}
+			if string(s.tail) == "\r\n\r\n" {
+				s.http = true
+			}
+			continue
+		}
+		if s.need > 0 {
+			k := s.need
+			if k > len(b) {
+				k = len(b)
+			}
+			s.need -= k
+			b = b[k:]
+			continue
+		}
+		s.hdr = append(s.hdr, b[0])
+		b = b[1:]
+		if len(s.hdr) < 2 {
+			continue
+		}
+		l7 := int(s.hdr[1] & 0x7f)
+		want := 2
+		switch l7 {
+		case 126:
+			want = 4
+		case 127:
+			want = 10
+		}
+		if s.hdr[1]&0x80 != 0 {
+			want += 4 // (a server does not mask; tolerated)
+		}
+		if len(s.hdr) < want {
+			continue
+		}
+		plen := l7
+		switch l7 {
+		case 126:
+			plen = int(s.hdr[2])<<8 | int(s.hdr[3])
+		case 127:
+			plen = 0
+			for _, x := range s.hdr[2:10] {
+				plen = plen<<8 | int(x)
+			}
+		}
+		fin, op := s.hdr[0]&0x80 != 0, s.hdr[0]&0x0f
+		s.frames++
+		if s.bad == "" {
+			switch {
+			case op == 0:
+				s.bad = fmt.Sprintf("a continuation frame of %d bytes", plen)
+			case op == 1:
+				s.bad = fmt.Sprintf("a text frame of %d bytes", plen)
+			case op == 2 && !fin:
+				s.bad = fmt.Sprintf("a binary frame of %d bytes without FIN (a fragment)", plen)
+			}
+		}
+		s.need = plen
+		s.hdr = s.hdr[:0]
+	}
 }
